@@ -24,7 +24,7 @@ from ..evidence import Run, canon_hash
 
 PID = "C17"
 SHARDS = {"quick": 6, "thorough": 16}
-N = {"quick": 1500, "thorough": 48000}
+N = {"quick": 2400, "thorough": 60000}
 
 M_D8 = "check_input-int-getter-ignores-validate-options"
 M_INT_KW = "check_input-int-getter-argument-passed-by-keyword"
@@ -33,6 +33,7 @@ M_METHOD_MISBIND = "check_input-method-call-missing-one-arg-binds-self-as-data"
 M_CT_ONE_STAR = "check_types-single-star-arg-treated-as-named-argument"
 M_CT_KW_NAME = "check_types-keyword-named-like-varkw-parameter"
 M_CT_UNION_LAZY = "check_types-union-lazy-failure-of-first-member-not-caught"
+M_CT_UNION_NONPANDAS = "check_types-union-all-members-rejected-non-pandas-frame"
 
 
 def new_run():
@@ -515,6 +516,11 @@ def _ct_in_specs(scn, world, obs):
                     parsed.append(world.schema(k).validate(val, **options))
                 except Exception as e:  # whatever validate raises, so would
                     errs.append(P.exc_norm(e))  # the decorator calling it
+                    if len(keys) > 1 and not isinstance(
+                            e, (pe.SchemaError, pe.SchemaErrors)):
+                        # validate itself left the documented channel (C06):
+                        # what a Union does then is not settled
+                        obs["ambiguous_union"] = True
             if not parsed:
                 if len(keys) > 1:
                     raise P.Reject(["<any-schema-error>"] + errs)
@@ -578,11 +584,28 @@ def classify(scn, var, act, ref, kind):
         if want is not None and got == ("tuple", [want]):
             return M_STR_VARARGS
     if f["deco"] == "check_types" and scn.get("df_annotation") == "union" \
-            and scn["options"]["lazy"] and ref["called"] \
+            and scn["options"]["lazy"] \
             and out and out[0] == "raise" and out[1][0] == "SchemaErrors":
         # _check_arg catches errors.SchemaError only; with lazy=True the
         # first member's SchemaErrors escapes before the next member is tried
-        return M_CT_UNION_LAZY
+        import pandera.errors as pe
+        w = World(scn)
+        try:
+            w.schema("df").validate(w.materialise(scn["values"]["df"], True),
+                                    **scn["options"])
+        except pe.SchemaErrors as e:
+            if P.exc_norm(e) == out[1]:
+                return M_CT_UNION_LAZY
+        except Exception:
+            pass
+        finally:
+            w.cleanup()
+    if f["deco"] == "check_types" and scn.get("df_annotation") == "union" \
+            and scn["backend"] != "pandas" and ref["called"] is False \
+            and out and out[1] == ("exc", "BackendNotFoundError"):
+        # _check_arg: SchemaErrors(schema_errors=error_handler.collect_errors)
+        # (a bound method) when the argument is not a pandas DataFrame
+        return M_CT_UNION_NONPANDAS
     if f["deco"] == "check_types":
         nrest = len(scn["values"].get("rest", []))
         if f["has_varpos"] and nrest == 1 and len(var["args"]) >= 1 and \
